@@ -587,6 +587,23 @@ def run_long(case):
   return r
 
 
+def gen_types(run):
+  from ..routes import struct_params
+  try:
+    T = route_table()
+  except Exception:
+    T = {}
+  for name, ent in T.items():
+    if struct_params(ent[1]):
+      yield (name,)
+
+
+def run_types(case):
+  from ..routes import struct_params, types_agree
+  ent = route_table()[case[0]]
+  return types_agree(case[0], ent[0], ent[1], ent[2], struct_params(ent[1]))
+
+
 KINDS = OrderedDict([
   ("maverage", Kind(gen_maverage, run_maverage, chunk=10, rule="strategy x size x zero kind x length on symbolic input")),
   ("reuse", Kind(gen_interleave, run_interleave, chunk=2, rule="one filter object, two signals, interleaved consumption")),
@@ -604,4 +621,6 @@ KINDS = OrderedDict([
                        rule="each function with every documented parameter set: all positional / all keyword / every split must agree")),
   ("long", Kind(gen_long, run_long, chunk=1, timeout=300,
                 rule="every tool on pseudo-random sequences of 64, 65, 130 and 400 (2000) samples, same oracles")),
+  ("param-types", Kind(gen_types, run_types, chunk=1,
+                       rule="structural integer parameters given as integral float / Fraction / bool: same result wherever the type is accepted")),
 ])
